@@ -18,7 +18,9 @@ Oracle (from the statement only; nothing is read from TCPLayer/UDPLayer state):
   peer as EOF; mitmproxy closes neither connection while one peer has not closed yet.
 * flow DFA -- ``start -> message* -> exactly one of end/error``; no message hook and no
   write to either peer after it; the terminal hook has fired by quiescence once both TCP
-  peers have closed / the UDP flow has been idle for longer than the UDP timeout.
+  peers have closed / the UDP flow has been idle for longer than the UDP timeout; once it
+  has fired mitmproxy has closed BOTH of its connections by quiescence (a finished flow
+  leaves no pipe open, so each peer's close has reached the other peer).
 """
 from __future__ import annotations
 
@@ -38,7 +40,9 @@ RULE = ("seeded timelines (2-14 ops) of client sends / origin sends / injections
         "and reverse:udp; connection_strategy eager/lazy, default/eager task factory, connect delay/refused/timeout; 0-3 "
         "tcp_message/udp_message rules (latency 0..2 s, length-keeping and length-changing edits); UDP loss/duplication/"
         "reordering applied to what the peers feed; a directed family makes both peers send their last data + FIN while a "
-        "message hook is pending; non-trivial = a flow relayed >= 1 message AND an edit, async hook, injection, half-close, "
+        "message hook is pending; a second directed family (15 %) pauses the layer with a slow tcp_start / tcp_message hook "
+        "(async latency or flow.intercept()+resume()), a slow server_connect(ed) hook or a slow connect while the client AND "
+        "the origin end their side (FIN or RST, either order, with or without last data, optional injection); non-trivial = a flow relayed >= 1 message AND an edit, async hook, injection, half-close, "
         "RST or network fault took part; distinct = distinct abstract event logs")
 COMPONENTS_REAL = ["Master", "AddonManager", "default addons (Proxyserver, NextLayer, ...)", "ProxyConnectionHandler",
                    "TimeoutWatchdog", "ReverseProxy/TransparentProxy mode layers", "NextLayer", "TCPLayer", "UDPLayer",
@@ -58,7 +62,8 @@ ASSUMPTIONS = ["VLoop keeps asyncio FIFO semantics; only clock and I/O readiness
                "the first client payload does not look like a TLS/DTLS record (that would select the TLS layers)"]
 EXPECTED_PROBES = ["tcp_flows", "udp_flows", "half_close_relayed", "injected_recorded", "edited", "edited_len_change",
                    "async_hook", "close_while_hook_pending", "flow_error", "rst", "udp_timeout_end", "server_first",
-                   "both_closed_while_hook_pending", "large_message"]
+                   "both_closed_while_hook_pending", "large_message", "all_pipes_closed_after_end", "slow_start_hook",
+                   "slow_server_connect_hook", "intercepted"]
 
 GAPS = [0, 0, 0, 1e-6, 1e-6, 0.001, 0.02, 0.3, 1.0]
 EDITS = [None, None, {"k": "reverse"}, {"k": "xor"}, {"k": "append", "v": "+tail"}, {"k": "truncate"},
@@ -217,9 +222,66 @@ def _gen_udp(r):
     return sc
 
 
+def _gen_tcp_close_race(r):
+    """Directed: the layer is paused (slow/intercepted tcp_start or tcp_message hook, slow server_connected hook, slow
+    connect) while the client AND the origin end their side (FIN or RST, either order, with or without last data),
+    so that both ConnectionClosed events sit in the layer's queue before either close has been relayed."""
+    transparent = r.random() < 0.3
+    sc = {"proto": "tcp", "family": ("rawtcp-transparent" if transparent else "rawtcp-reverse") + "-closerace",
+          "modes": ["transparent"] if transparent else ["reverse:tcp://o.test:9"],
+          "original_dst": ["10.5.5.5", 9] if transparent else None,
+          "options": {"connection_strategy": r.choice(["eager", "eager", "lazy"])}}
+    if transparent:
+        sc["options"]["tcp_hosts"] = ["10\\.5\\.5\\.5"]
+    variant = r.choice(["tcp_start", "tcp_start", "tcp_message", "tcp_message", "tcp_message", "server_connected", "connect"])
+    lat = r.choice([0.05, 0.5, 2.0])
+    sc["connect"] = {"delay": r.choice([0, 0.01])}
+    ops = [{"gap": 0, "who": "client", "op": "send", "data": _payload(r, "c", 0, first=True, big_ok=False)}]
+    rules = []
+    if variant == "tcp_start":
+        rules.append({"hook": "tcp_start", "nth": 0, "latency": lat})
+    elif variant == "server_connected":
+        sc["options"]["connection_strategy"] = "lazy"
+        rules.append({"hook": r.choice(["server_connected", "server_connect"]), "nth": 0, "latency": lat})
+    elif variant == "connect":
+        sc["options"]["connection_strategy"] = "lazy"
+        sc["connect"] = {"delay": lat}
+    else:
+        # 0-2 earlier messages, each its own message; then the message whose hook is slow or intercepted
+        for j in range(r.choice([0, 0, 1, 2])):
+            ops.append({"gap": 0.5, "who": r.choice(["client", "server"]), "op": "send", "data": _payload(r, "p", j + 1, big_ok=False)})
+        nth = len(ops)
+        ops.append({"gap": 1.0, "who": r.choice(["client", "server"]), "op": "send", "data": _payload(r, "t", 9, big_ok=False)})
+        rule = {"hook": "tcp_message", "nth": nth, "latency": lat, "edit": r.choice(EDITS)}
+        if r.random() < 0.3:
+            rule["intercept"] = True      # flow.intercept() ... flow.resume() after `latency`
+        rules.append(rule)
+    sides = ["client", "server"]
+    r.shuffle(sides)
+    tail = []
+    for who in sides:
+        if r.random() < 0.5:
+            tail.append({"who": who, "op": "send", "data": _payload(r, who[0], 20 + len(tail), big_ok=False)})
+        tail.append({"who": who, "op": "fin" if r.random() < 0.85 else "rst"})
+    if r.random() < 0.2:
+        tail.insert(r.randrange(0, len(tail) + 1), {"who": "addon", "op": "inject", "to_client": r.random() < 0.5,
+                                                    "data": S(INJ_PREFIX + b"9>")})
+    for i, o in enumerate(tail):
+        o["gap"] = r.choice([1e-6, lat / 8, lat / 4]) if i == 0 else r.choice([0, 0, 1e-6, lat / 16])
+        ops.append(o)
+    if r.random() < 0.3:
+        rules += _rules(r, "tcp_message", 4)
+    sc["ops"] = ops
+    sc["rules"] = rules
+    return sc
+
+
 def generate(rng, tier):
     r = rng.at("c29")
-    sc = _gen_udp(r) if r.random() < 0.35 else _gen_tcp(r)
+    if rng.at("c29-family").random() < 0.15:
+        sc = _gen_tcp_close_race(rng.at("c29-closerace"))
+    else:
+        sc = _gen_udp(r) if r.random() < 0.35 else _gen_tcp(r)
     sc["eager"] = r.random() < 0.4
     sc["settle"] = 30.0
     return sc
@@ -335,6 +397,13 @@ def oracle(sc, obs):
             probes["large_message"] = 1
     if any(a[2] > 0 for a in obs.applied):
         probes["async_hook"] = 1
+    if any(a[0].endswith("_start") and a[2] > 0 for a in obs.applied):
+        probes["slow_start_hook"] = 1
+    if any(a[0].startswith("server_connect") and a[2] > 0 for a in obs.applied):
+        probes["slow_server_connect_hook"] = 1
+    if any(r_.get("intercept") and any(a[0] == r_.get("hook") and a[1] == r_.get("nth") and a[2] > 0 for a in obs.applied)
+           for r_ in sc.get("rules", [])):
+        probes["intercepted"] = 1
     if obs.pending_at_close:
         probes["close_while_hook_pending"] = 1
     if obs.pending_at_close >= 2:
@@ -458,7 +527,8 @@ def oracle(sc, obs):
                 # (a FIN that arrived before the flow existed is owed from the flow's start on)
                 slack = sum((r_.get("latency") or 0) for r_ in sc.get("rules", [])) + 1.0
                 t_start = next((h[1] for h in hooks if h[2].endswith("_start")), 0.0)
-                if yf is None or yf[1] > max(xf[1], t_start) + slack:
+                # (... and, towards the origin, from the moment the upstream connection exists)
+                if yf is None or yf[1] > max(xf[1], t_start, Y.opened_at) + slack:
                     if Y.eof_time is None or (yf is not None and Y.eof_time > yf[1]):
                         v.append(_V("fin_not_propagated", {"from": X.kind},
                                     f"{X.kind} sent FIN at t={xf[1]:.6f} but the {Y.kind} "
@@ -503,6 +573,20 @@ def oracle(sc, obs):
                                     "event_never_delivered": lost},
                     f"flow never fired {P}_end/{P}_error by quiescence (client handler finished: {obs.handler_done}, events "
                     f"delivered to the layers: {sorted(set(obs.delivered))}); hooks={names}; pending={obs.pending_hooks}"))
+    # ---- a finished flow leaves no pipe behind --------------------------------------------------------
+    # The end/error hook says the flow is over ("after which no further data is relayed"): by quiescence mitmproxy
+    # must have closed both of its connections, so that every peer's FIN has reached the other peer.
+    if term is not None:
+        for conn in (c, s):
+            if conn is not None and not conn.proxy_closed:
+                saw_eof = bool(conn.rx_eof) if P == "tcp" else False
+                v.append(_V("connection_left_open", {"proto": P, "left_open": conn.kind, "peer_saw_eof": saw_eof,
+                                                     "after": term[1].split("_", 1)[1]},
+                            f"{term[1]} fired at seq {term[0]} but mitmproxy never closed its {conn.kind} connection "
+                            f"(that peer {'saw' if saw_eof else 'never saw'} EOF): the other peer's close is not propagated; "
+                            f"hooks={names}"))
+        if all(conn is None or conn.proxy_closed for conn in (c, s)):
+            probes["all_pipes_closed_after_end"] = 1
     if P == "udp" and term is not None and not any(e[2] == "peer_close" for e in obs.events):
         probes["udp_timeout_end"] = 1
     if obs.notes:
